@@ -333,6 +333,72 @@ def exact_check(cfg, nsteps):
     return err, tol
 
 
+def rescale_check(cfg, nsteps, amp, megno):
+    """WHFast with first-order variational particles whose tangent vector crosses the 1e100 rescaling threshold of
+    reb_simulation_rescale_var: safe_mode=1 versus safe_mode=0 + synchronize.  The physical tangent vector is
+    coords * exp(lrescale): lrescale must agree, the stored coordinates must agree relative to their norm, MEGNO finite."""
+    res = []
+    for safe in (1, 0):
+        sim = make(dict(cfg, safe=safe, keep=0, var=0))
+        if megno:
+            sim.init_megno(seed=cfg["sysseed"] % 1000 + 1)
+            for i in range(sim.N - sim.N_var, sim.N):
+                p = sim.particles[i]
+                p.x *= amp; p.y *= amp; p.z *= amp; p.vx *= amp; p.vy *= amp; p.vz *= amp
+        else:
+            v = sim.add_variation(); v.particles[1].x = amp; v.particles[min(2, sim.N_real - 1)].vy = 0.3 * amp
+        sim.steps(nsteps); sim.synchronize(); sim.synchronize()
+        nr = sim.N - sim.N_var
+        var = [x for i in range(nr, sim.N) for x in (sim.particles[i].x, sim.particles[i].y, sim.particles[i].z,
+                                                      sim.particles[i].vx, sim.particles[i].vy, sim.particles[i].vz)]
+        res.append({"var": var, "lres": sim.var_config[0].lrescale, "megno": sim.megno() if megno else 0.0, "real": pstate(sim)[:7 * nr]})
+    a, b_ = res
+    na = max(abs(x) for x in a["var"]); nb = max(abs(x) for x in b_["var"])
+    if not (na > 0 and nb > 0 and math.isfinite(na) and math.isfinite(nb)): return "variational coordinates not finite (safe %r, deferred %r)" % (na, nb), a["lres"]
+    if not (math.isfinite(a["megno"]) and math.isfinite(b_["megno"])): return "MEGNO not finite (safe %r, deferred %r)" % (a["megno"], b_["megno"]), a["lres"]
+    if abs(a["lres"] - b_["lres"]) > 1e-6 * max(1.0, abs(a["lres"])): return "lrescale differs: safe %.12g, deferred %.12g" % (a["lres"], b_["lres"]), a["lres"]
+    dv = max(abs(x - y) for x, y in zip(a["var"], b_["var"])) / na
+    angle = abs(cfg["dt"]) * nsteps
+    # tangent vectors grow ~ linearly with the shear: rounding differences are amplified by (1 + angle)^2 at most here
+    tol = 1e5 * EPS * nsteps * (1.0 + angle) ** 2
+    if dv > tol: return "variational coordinates differ by %.3g of their norm (tolerance %.3g)" % (dv, tol), a["lres"]
+    return None, a["lres"]
+
+
+def archive_check(cfg, nsteps, interval_steps, t_frac, mode, keep_arg):
+    """a Simulationarchive written by a safe_mode=0 run; getSimulation(t, mode, keep_unsynchronized) must give the state of a
+    direct safe_mode=1 run at the returned time (same step sequence: agreement to rounding, far below the step error)."""
+    fn = os.path.join(TMP, "a%d.bin" % os.getpid())
+    if os.path.exists(fn): os.remove(fn)
+    sim = make(dict(cfg, safe=0, keep=0))
+    dt = sim.dt
+    sim.save_to_file(fn, step=interval_steps, delete_file=True)
+    sim.integrate(sim.t + (nsteps - 0.5) * dt, exact_finish_time=0)
+    tend = sim.t
+    del sim
+    sa = rebound.Simulationarchive(fn)
+    t = t_frac * tend
+    kw = {} if keep_arg is None else {"keep_unsynchronized": keep_arg}
+    s = sa.getSimulation(t, mode=mode, **kw)
+    got = pstate(s); tg = s.t
+    del sa
+    os.remove(fn)
+    ref = make(dict(cfg, safe=1, keep=0))
+    if mode == "exact":
+        ref.integrate(t, exact_finish_time=1)
+        if abs(tg - t) > 1e-12 * max(1.0, abs(t)): return float("inf"), 0.0, "returned time %r is not the requested %r" % (tg, t)
+    else:
+        k = int(round(tg / dt))
+        ref.steps(k)
+        if abs(ref.t - tg) > 1e-9 * max(1.0, abs(tg)): return float("inf"), 0.0, "returned time %r is not on the step grid" % tg
+    want = pstate(ref)
+    err = maxdiff(want, got, scales(cfg, want))
+    n = max(1, int(abs(tg / dt)) + 1)
+    angle = abs(dt) * n
+    tol = min(1e-9, 2000 * EPS * n * (1.0 + 1.5 * angle) * (10 if cfg.get("corrector", 0) >= 11 else 1))
+    return err, tol, ""
+
+
 def eos_check(cfg, nsteps):
     cs = dict(cfg, safe=1, keep=0); cu = dict(cfg, safe=0, keep=0)
     a = run_seq(cs, [("step", nsteps)]); b = run_seq(cu, [("step", nsteps)])
@@ -445,6 +511,36 @@ def main():
         if not (err <= tol):
             fail("exact-finish-differs:" + cfg["integ"], "integrate(exact_finish_time=1): safe_mode 0 and 1 differ by %.3g (tolerance %.3g)" % (err, tol),
                  {"check": "exact", "cfg": cfg, "nsteps": n})
+    # ---- variational particles crossing the rescaling threshold (reb_simulation_rescale_var), safe vs deferred
+    for k in range(40 if thorough else 10):
+        cfg = finish_cfg(rng, {"integ": "whfast", "corrector": rng.choice([0, 0, 3, 11])}); cfg["dt"] = abs(cfg["dt"])
+        amp = rng.choice([3e99, 9.9e99, 1e100, 1.0, 2e100]); megno = rng.random() < 0.4; n = rng.choice([5, 40, 200])
+        try:
+            why, lres = rescale_check(cfg, n, amp, megno)
+        except Exception as e:
+            why, lres = "exception: %r" % (e,), 0.0
+        rep["evaluations"] += 1; keys.add(("rescale", label(cfg), amp, megno, n, lres > 0))
+        if why:
+            fail("variational-rescale-deferred-differs:whfast", why, {"check": "rescale", "cfg": cfg, "nsteps": n, "amp": amp, "megno": megno})
+    # ---- the Simulationarchive path: getSimulation(t, mode, keep_unsynchronized) of a safe_mode=0 archive
+    acfgs = [{"integ": "whfast"}, {"integ": "whfast", "corrector": 11}, {"integ": "whfast", "coordinates": 1}, {"integ": "whfast", "kernel": 2},
+             {"integ": "saba", "type": 0x6}, {"integ": "saba", "type": 0x1}, {"integ": "saba", "type": 0x102}, {"integ": "mercurius"}]
+    for c0 in acfgs * (4 if thorough else 1):
+        for mode in ("exact", "close", "snapshot"):
+            for keep_arg in (None, 0, 1):
+                cfg = finish_cfg(rng, c0); cfg["dt"] = abs(cfg["dt"])
+                n = rng.choice([17, 40]); iv = rng.choice([3, 7]); tf = rng.uniform(0.15, 0.95)
+                try:
+                    err, tol, note = archive_check(cfg, n, iv, tf, mode, keep_arg)
+                except Exception as e:
+                    err, tol, note = float("inf"), 0.0, "exception: %r" % (e,)
+                rep["evaluations"] += 1; keys.add(("archive", label(cfg), mode, keep_arg))
+                worst["archive"] = max(worst.get("archive", 0.0), err / tol if tol else float("inf"))
+                if not (err <= tol):
+                    fail("archive-getSimulation-differs:%s:%s" % (cfg["integ"], mode),
+                         "getSimulation(t, mode=%r, keep_unsynchronized=%r) of a safe_mode=0 archive differs from the direct safe-mode run by %.3g (tolerance %.3g) %s"
+                         % (mode, keep_arg, err, tol, note),
+                         {"check": "archive", "cfg": cfg, "nsteps": n, "interval": iv, "t_frac": tf, "mode": mode, "keep_arg": keep_arg})
     for c0 in ecfgs * (12 if thorough else 3):
         cfg = finish_cfg(rng, c0); cfg["dt"] = rng.choice([0.02, 0.05]) * 2 * math.pi
         n = rng.choice([2, 8, 30])
@@ -499,6 +595,11 @@ def replay(rep):
     if ch == "safe_vs_unsafe":
         err, tol, note = safe_vs_unsafe(cfg, r["nsteps"], r["keep"])
         return None if err <= tol else "differs by %.3g (tolerance %.3g)" % (err, tol)
+    if ch == "rescale":
+        return rescale_check(cfg, r["nsteps"], r["amp"], r["megno"])[0]
+    if ch == "archive":
+        err, tol, note = archive_check(cfg, r["nsteps"], r["interval"], r["t_frac"], r["mode"], r["keep_arg"])
+        return None if err <= tol else "differs by %.3g (tolerance %.3g) %s" % (err, tol, note)
     if ch == "exact":
         err, tol = exact_check(cfg, r["nsteps"])
         return None if err <= tol else "differs by %.3g (tolerance %.3g)" % (err, tol)
